@@ -203,6 +203,13 @@ def execute(case):
         classes.append('unrepresentable-text' if any(
             op[0] == 'w' and _lossy(op[1]) != op[1] for op in case["ops"])
             else 'latin-1-file')
+    if case["max_bytes"] and any(
+            op[0] == 'w' and op[2] == 'b' and not op[1].isascii() and
+            len(op[1]) < case["max_bytes"] <= len(op[1].encode('utf8')) + 2
+            for op in case["ops"]):
+        # a write whose length in characters and in bytes fall on different
+        # sides of (or right at) the bound
+        classes.append('multibyte-bytes-near-bound')
     return viols, rollovers >= 2, classes
 
 
@@ -304,6 +311,14 @@ def _strategy():
                     form = "s"
             elif kind == 1:
                 text = draw(st.text(chars, min_size=0, max_size=size))
+            elif kind == 2:
+                # multi-byte characters handed over as bytes, with a length
+                # in characters around the bound: bytes and characters
+                # disagree about which side of max_bytes the write is on
+                text = draw(st.text(st.sampled_from(
+                    ['\xe9', '\u20ac', '\u0142', 'a', '\n']),
+                    min_size=size, max_size=size))
+                form = "b"
             else:
                 text = draw(st.text(alpha, min_size=size, max_size=size))
             wop = ["w", text, form]
@@ -328,7 +343,7 @@ def plan(tier, seed):
     else:
         ex = [{"kind": "exhaustive", "max_bytes": [m], "writes": 4,
                "maxlen": 3} for m in range(1, 7)]
-        rnd = [{"kind": "random", "seed": seed * 100 + i, "n": 700}
+        rnd = [{"kind": "random", "seed": seed * 100 + i, "n": 1200}
                for i in range(8)]
     return ex + rnd
 
@@ -354,4 +369,7 @@ def check_floors(counters, evaluations, tier):
     if counters.get('rollovers>=2', 0) < 0.1 * evaluations:
         msgs.append("fewer than 10%% of cases had >= 2 rollovers (%d/%d)" % (
             counters.get('rollovers>=2', 0), evaluations))
+    if counters.get('multibyte-bytes-near-bound', 0) < 60:
+        msgs.append("only %d cases with a multi-byte write near the bound" %
+                    counters.get('multibyte-bytes-near-bound', 0))
     return msgs
